@@ -87,7 +87,7 @@ def build_model(text, max_states=20000):
     return Model(prog, max_states=max_states)
 
 
-def compare_closed_form(model, goal, sol, N, seed=0, stats=None):
+def compare_closed_form(model, goal, sol, N, seed=0, stats=None, exact=True, tol=1e-5):
     """Compare Polar's closed form `sol` for monomial `goal` with the model for n = 0..N'.
     -> (list of mismatches, info dict)"""
     from . import polar
@@ -102,7 +102,10 @@ def compare_closed_form(model, goal, sol, N, seed=0, stats=None):
         expected = model.moment(gp, n)
         exp_seq.append(expected)
         obs = polar.at_n(sol, n)
-        verdict, how, obs_text = polar.compare_value(obs, expected, seed)
+        if exact:
+            verdict, how, obs_text = polar.compare_value(obs, expected, seed)
+        else:
+            verdict, how, obs_text = polar.compare_value_rounded(obs, expected, seed, tol)
         how_all.add(how)
         if stats is not None:
             stats["evaluations"] = stats.get("evaluations", 0) + 1
@@ -117,7 +120,8 @@ def compare_closed_form(model, goal, sol, N, seed=0, stats=None):
                   "expected": [e.to_text() for e in exp_seq[:6]]}
 
 
-def analyse_program_goals(text, goals, N, seed=0, settings=None, force_cyclic=False):
+def analyse_program_goals(text, goals, N, seed=0, settings=None, force_cyclic=False, rounded_tol=1e-5,
+                          refusal_is_violation=False):
     """One C01 case: a program and its goals.  Returns the pool result dict."""
     from . import polar
 
@@ -127,8 +131,13 @@ def analyse_program_goals(text, goals, N, seed=0, settings=None, force_cyclic=Fa
     stats = {"programs": 1, "evaluations": 0, "refusals": {}}
     res = {"status": "ok", "stats": stats, "violations": []}
     try:
-        model = build_model(text)
-        model.run(N)
+        with cpu_limit(20):
+            model = build_model(text)
+            model.run(N)
+    except CpuTimeout:
+        res["status"] = "na"
+        stats["caps_hit"] = 1
+        return res
     except (NotApplicable, NotPolynomial) as e:
         res["status"] = "na"
         stats["model_not_applicable"] = 1
@@ -150,10 +159,15 @@ def analyse_program_goals(text, goals, N, seed=0, settings=None, force_cyclic=Fa
         except Exception as e:
             stats["refusals"][exc_name(e)] = 1
             res["status"] = "refusal"
+            if refusal_is_violation:
+                res["status"] = "violation"
+                res["violations"].append({"sub": "normalize", "detail": {"refused_with": exc_name(e), "message": str(e)[:300],
+                                                                         "program": text}})
             return res
         from recurrences import RecBuilder
 
         rb = RecBuilder(program)
+        solvers = {}
         sample_vals = None
         from .pool import tainted
 
@@ -169,17 +183,26 @@ def analyse_program_goals(text, goals, N, seed=0, settings=None, force_cyclic=Fa
                 continue
             try:
                 with cpu_limit(min(GOAL_CPU, left)):
-                    sol, exact, recs = polar.solve(program, goal, force_cyclic=force_cyclic, rb=rb)
+                    sol, exact = polar.solve_cli(program, goal, rb, solvers, force_cyclic=force_cyclic)
             except CpuTimeout:
                 stats["refusals"]["timeout@solve"] = stats["refusals"].get("timeout@solve", 0) + 1
                 continue
             except Exception as e:
                 k = exc_name(e)
                 stats["refusals"][k] = stats["refusals"].get(k, 0) + 1
+                if refusal_is_violation:
+                    res["violations"].append({"sub": "E(%s)" % goal, "detail": {"refused_with": k, "message": str(e)[:300],
+                                                                                "program": text}})
+                continue
+            if any(str(sy).startswith("_prob") for sy in sol.free_symbols):
+                # result expressed through an abstracted probability `_probK = P(cond)` (printed by Polar as a
+                # `where` clause): not comparable without evaluating that probability; counted, not judged
+                stats["abstraction_results"] = stats.get("abstraction_results", 0) + 1
                 continue
             try:
                 with cpu_limit(GOAL_CPU):
-                    mism, info = compare_closed_form(model, goal, sol, N, seed, stats)
+                    mism, info = compare_closed_form(model, goal, sol, N, seed, stats, exact=bool(exact),
+                                                     tol=rounded_tol)
             except CpuTimeout:
                 stats["refusals"]["timeout@compare"] = stats["refusals"].get("timeout@compare", 0) + 1
                 continue
